@@ -2,6 +2,7 @@ import Proofs.Pareto
 import Proofs.ParetoRanked
 import Proofs.ParetoLoop
 import Proofs.ParetoFront
+import Proofs.ParetoColumn
 
 /-!
 # C11 — Non-dominated set and Pareto front are exact
@@ -149,6 +150,54 @@ theorem C11_first_front (ord : List Row → List Row) (hord : OrdOK ord) (pts : 
     (fun i hi => List.mem_range.1 hi) _ h.1
     (fun x hx => h.2.1 x ((hrows x).2 hx)) (fun r hr => (hrows r).1 (h.2.2 r hr))
 
+/-! ### the `pareto_efficient` column of a results table — which columns are objectives, which rows
+take part, where the flags go -/
+
+/-- **C11 (objective columns).**  Of the columns the evaluator writes — `p:<hyperparameter name>`,
+`objective`, `objective_<i>`, `job_id`, `job_status`, `m:<metadata key>`, `pareto_efficient` — the step
+selects exactly `objective` / `objective_<i>`, whatever strings the user chose as hyperparameter names and
+metadata keys (a key such as `objective_0_std` gives the column `m:objective_0_std`, which is not selected). -/
+theorem C11_objective_columns (k : ColKind) : isObjectiveName k.render = k.isObjective :=
+  isObjectiveName_render k
+
+/-- **C11 (objective cells).**  Hence the vector read from a row consists of the cells under the objective
+columns only, in column order, and a column is written iff there are at least two objectives. -/
+theorem C11_objective_cells (kinds : List ColKind) (rows : List (List Cell)) (order : List Nat) :
+    (∀ row, project (kinds.map ColKind.render) row = projectKinds kinds row) ∧
+    (paretoColumn (kinds.map ColKind.render) rows order = .noColumn ↔
+      (kinds.filter ColKind.isObjective).length ≤ 1) := by
+  refine ⟨project_render kinds, ?_⟩
+  unfold paretoColumn
+  rw [filter_render]
+  split
+  · simp [*]
+  · rename_i hgt
+    constructor
+    · intro h; simp only at h; split at h <;> cases h
+    · intro h; exact absurd h hgt
+
+/-- **C11 (`pareto_efficient` column).**  Whenever the step writes a column: it has one flag per row; a
+failed row (first objective cell is a failure marker) is never flagged; and the flags of the successful
+rows, read in row order, are exactly the mask form of `non_dominated_set` on their negated objective vectors
+(objective columns only) — so, by `C11_nds`/`C11_mask`, exactly a Pareto-optimal selection under
+maximisation of the objectives. -/
+theorem C11_column (kinds : List ColKind) (rows : List (List Cell)) (order : List Nat)
+    (flags : List Bool) (h : paretoColumn (kinds.map ColKind.render) rows order = .column flags) :
+    let objs := rows.map (projectKinds kinds)
+    let oks := objs.map rowOk
+    ∃ vecs, negVecs (objs.filter rowOk) = some vecs ∧ flags.length = rows.length ∧
+      (∀ i : Nat, oks[i]? = some false → flags[i]? = some false) ∧
+      gather oks flags = ndsMask vecs order ∧
+      (OrderOK vecs.length order → NdsSpec vecs (ndsIdx vecs order) ∧
+        ∀ i, i < vecs.length → ((gather oks flags).getD i false = true ↔ i ∈ ndsIdx vecs order)) := by
+  intro objs oks
+  have hp : rows.map (project (kinds.map ColKind.render)) = objs :=
+    List.map_congr_left (fun r _ => project_render kinds r)
+  obtain ⟨vecs, hv, hl, hf, hg⟩ := paretoColumn_spec _ rows order flags h
+  simp only [hp] at hv hf hg
+  refine ⟨vecs, hv, hl, hf, hg, fun hord => ⟨C11_nds vecs order hord, fun i hi => ?_⟩⟩
+  rw [hg]; exact (C11_mask vecs order).2 i hi
+
 /-! non-vacuity: a concrete set with ties, a duplicate optimal point and weak dominance -/
 example : OrderOK 4 [2, 0, 3, 1] := by
   constructor
@@ -168,5 +217,19 @@ example : rankedIdx (fun l => l.reverse) [[1, 2], [2, 1], [1, 2], [2, 2], [3, 3]
   decide +kernel
 example : fronts (fun l => l.reverse) 5 (rowsOf [[1, 2], [2, 1], [1, 2], [2, 2], [3, 3]])
     = [[1, 2], [0], [3], [4]] := by decide +kernel
+
+
+/-! non-vacuity for the column: hyperparameter `objective_1` (column `p:objective_1`) and metadata key
+`objective_0` (column `m:objective_0`) next to the objectives; row 1 failed; rows 0 and 3 are the maxima. -/
+example : paretoColumn
+    ([ColKind.param (objPrefix ++ ['_', '1']), .objectiveI 0, .objectiveI 1, .jobId,
+      .metadata (objPrefix ++ ['_', '0'])].map ColKind.render)
+    [[.num 9, .num 1, .num 2, .num 0, .num 0], [.num 0, .fail, .fail, .num 1, .txt],
+     [.num 0, .num 1, .num 1, .num 2, .num 7], [.num 0, .num 2, .num 0, .num 3, .num 0]] [2, 0, 1]
+    = .column [true, false, false, true] := by decide +kernel
+example : (ColKind.metadata (objPrefix ++ ['_', '0', '_', 's', 't', 'd'])).render
+    = ['m', ':', 'o', 'b', 'j', 'e', 'c', 't', 'i', 'v', 'e', '_', '0', '_', 's', 't', 'd'] := by decide +kernel
+example : (ColKind.objectiveI 12).render = ['o', 'b', 'j', 'e', 'c', 't', 'i', 'v', 'e', '_', '1', '2'] := by
+  decide +kernel
 
 end DH.Pareto
